@@ -88,11 +88,14 @@ theorem pass_through (hp : h.err = none ∨ ∃ e, h.err = some e ∧ filter e =
   · simp [middleware, he]
   · simp [middleware, he, hf]
 
-/-- the handler's outputs are returned unchanged in every case (also when the message was poisoned) -/
-theorem outs_unchanged : (middleware ptopic filter pub c msg h).outs = h.outs := by
+/-- the handler's outputs are returned unchanged in every case in which the call returns (also when the message was
+    poisoned); the only other case is a poison publisher that panics -/
+theorem outs_unchanged :
+    (middleware ptopic filter pub c msg h).outs = h.outs ∨
+    ∃ t, pub = .panic t ∧ (middleware ptopic filter pub c msg h).err = some (.panicked t) := by
   unfold middleware
   cases h.err with
-  | none => rfl
+  | none => exact Or.inl rfl
   | some e => cases hf : filter e <;> cases pub <;> simp [hf]
 
 /-- **acked_implies_handled_or_poisoned**: composed with the Router's settle rule, a message is acked only if its
@@ -111,6 +114,7 @@ theorem acked_implies_handled_or_poisoned (okp : Bool)
     | true =>
       cases pub with
       | fail t => simp [routerSettle, middleware, he, hf] at hack
+      | panic t => simp [routerSettle, middleware, he, hf] at hack
       | ok =>
         obtain ⟨m', h1, h2, h3, _⟩ := poison_once_same_identity ptopic filter .ok c msg h e he hf
         exact ⟨e, m', rfl, hf, rfl, h1, h2, h3⟩
@@ -120,6 +124,15 @@ theorem nacked_when_poison_publish_fails (okp : Bool) (e : HErr) (t : Str)
     (he : h.err = some e) (hf : filter e = true) :
     (middleware ptopic filter (.fail t) c msg h).err ≠ none ∧
     routerSettle (middleware ptopic filter (.fail t) c msg h) okp = .nack := by
+  simp [routerSettle, middleware, he, hf]
+
+/-- a poison publisher that PANICS is a publish that failed: the middleware does not report success (the panic
+    leaves the call) and the Router, which recovers it, Nacks the message -/
+theorem nacked_when_poison_publisher_panics (okp : Bool) (e : HErr) (t : Str)
+    (he : h.err = some e) (hf : filter e = true) :
+    (middleware ptopic filter (.panic t) c msg h).err = some (.panicked t) ∧
+    routerSettle (middleware ptopic filter (.panic t) c msg h) okp = .nack ∧
+    (middleware ptopic filter (.panic t) c msg h).pubs.length = 1 := by
   simp [routerSettle, middleware, he, hf]
 
 /-- a filtered-out error is Nacked -/
